@@ -38,6 +38,35 @@ fn main() {
         usage();
     }
     let id = args[0].to_uppercase();
+    if id == "MINE11" {
+        // one-off helper: find (server id "", secret 0x42 x 16, key = counter) whose SHA-1 digest ends in 32 zero bits,
+        // one with the top bit set and one without; prints regression cases for corpus/C11
+        let threads = 16u64;
+        let found_neg = std::sync::atomic::AtomicBool::new(false);
+        let found_pos = std::sync::atomic::AtomicBool::new(false);
+        std::thread::scope(|sc| {
+            for t in 0..threads {
+                let (found_neg, found_pos) = (&found_neg, &found_pos);
+                sc.spawn(move || {
+                    let secret = [0x42u8; 16];
+                    let mut i = t;
+                    while !(found_neg.load(std::sync::atomic::Ordering::Relaxed) && found_pos.load(std::sync::atomic::Ordering::Relaxed)) {
+                        let key = i.to_be_bytes();
+                        let d = vh::refcrypto::sha1(&[b"", &secret, &key]);
+                        if d[16] == 0 && d[17] == 0 && d[18] == 0 && d[19] == 0 {
+                            let neg = d[0] & 0x80 != 0;
+                            let flag = if neg { found_neg } else { found_pos };
+                            if !flag.swap(true, std::sync::atomic::Ordering::Relaxed) {
+                                println!("{{\"server_id\":\"\",\"secret\":\"{}\",\"key\":\"{}\",\"via_adapter\":false}}  # digest {}", vh::refcodec::to_hex(&secret), vh::refcodec::to_hex(&key), vh::refcodec::to_hex(&d));
+                            }
+                        }
+                        i += threads;
+                    }
+                });
+            }
+        });
+        std::process::exit(0);
+    }
     if id == "SERVE" {
         // child mode of the layered-configuration family: Config::read() + passage::start
         std::process::exit(vh::layers::serve());
